@@ -242,6 +242,23 @@ class FSFLW(Flavour):
         return ml, ml
 
 
+class FSFLWNoCb(Flavour):
+    """the same walker observed through its "modified" signal only: set_focus_changed_callback() replaces the
+    walker's own _focus_changed hook, so a session that installs a callback never runs the class's own hook"""
+
+    name = "SimpleFocusListWalker(no-focus-callback)"
+    focus_cb = False
+
+    def make(self, toks, focus, log):
+        import urwid
+
+        ml = urwid.SimpleFocusListWalker(toks)
+        if toks and focus:
+            ml.focus = focus
+        urwid.connect_signal(ml, "modified", lambda: log.append(("mod", [id(x) for x in ml])))
+        return ml, ml
+
+
 class FSLW(Flavour):
     name = "SimpleListWalker"
     focus_none_when_empty = False
@@ -303,7 +320,7 @@ class FContainer(Flavour):
         return ml, c
 
 
-FLAVOURS = {f.name: f for f in [FMFL(), FML(), FSFLW(), FSLW(), FContainer("Pile"), FContainer("Columns"), FContainer("GridFlow")]}
+FLAVOURS = {f.name: f for f in [FMFL(), FML(), FSFLW(), FSFLWNoCb(), FSLW(), FContainer("Pile"), FContainer("Columns"), FContainer("GridFlow")]}
 
 
 class CTok(tuple):
@@ -543,7 +560,7 @@ class Session:
                 ok = False
             elif f_after != f_before:
                 ctx.count("focus_moved_by_mutation" if op[0] != "focus" else "focus_set")
-        if f_before is not None and n > 0 and flav.tracks:
+        if f_before is not None and n > 0 and flav.tracks and getattr(flav, "focus_cb", True):
             if (f_after != f_before) != bool(focs):
                 self.viol(
                     "focus-callback-missing" if not focs else "focus-callback-spurious", f"focus {f_before}->{f_after}, callbacks {focs}"
